@@ -113,10 +113,10 @@ CLAIMED['C11'] = dict(
 
 CLAIMED['C14'] = dict(
     category='proof',
-    text='TWO of the four clauses of the statement. (1) Chunking independence: contract on the line reassembly of the real Processes._async_reader_callback, with text as a view of code points into one array S = kept buffer ++ chunk: every command queued is a complete line of S (starts where the previous line ended, is followed by the first newline after its start, holds no newline), and the buffer stored for the next read is exactly the newline-free text after the LAST newline of S (loop invariant + variant; class invariant "the kept buffer holds no newline" required and re-established). The induction over reads then gives independence from the chunking. (2) Selectors: contract on the real match_neighbor: selected iff EVERY term is the wildcard or matches, and each term is searched with the whole-word pattern (^|\\s)<escaped term>($|\\s|,). Discharged by z3. Bounded complement: the real callback over a real os.pipe() under cuts at and around every newline and EVERY chunking of a short stream; every 1-3 term selector x 5 neighbors (IPv6 address that is a textual prefix of another) against a reference matcher.',
-    note='NOT COVERED: "exactly one terminal done/error reply per command, in command order" and "an unknown or failing command changes no RIB" -- the API dispatcher, the command callbacks and the ASYNC scheduler have no obligations and no bounded check yet (seeded change C14-2, replies out of order, is missed). extract_neighbors is bounded only. The oversize-line memory guard is chunking-dependent by construction and excluded.',
-    ref='DESIGN.md §6 C14, §11.10',
-    technique=PYVC + '; text as code-point views (absolute-index quantifiers); bounded real-pipe chunkings and selector enumeration',
+    text='Deductive (z3): (1) chunking independence: contract on the line reassembly of the real Processes._async_reader_callback, with text as a view of code points into one array S = kept buffer ++ chunk: every command queued is a complete line of S (starts where the previous line ended, is followed by the first newline after its start, holds no newline), and the buffer stored for the next read is exactly the newline-free text after the LAST newline of S (loop invariant + variant; class invariant "the kept buffer holds no newline" required and re-established); the induction over reads gives independence from the chunking. (2) selectors: contract on the real match_neighbor: selected iff EVERY term is the wildcard or matches, each term searched with the whole-word pattern (^|\\s)<escaped term>($|\\s|,). Bounded: the real callback over a real os.pipe() under cuts at and around every newline and EVERY chunking of a short stream; every 1-3 term selector x 5 neighbors against a reference matcher; and (command-bursts) the command-processing statements of Reactor._async_main_loop -- extracted from its source at run time and executed unmodified -- on a real Reactor with two real Peers, a real Processes fed through a real pipe and answering through a real pipe, the real API dispatcher (v6 syntax) and the real ASYNC scheduler: every ordered pair of 8 commands (accepted for all / one neighbor, unknown, unparsable, value out of range, selector matching nobody, incomplete route) coalesced in one read plus sampled longer sequences at 1 / 2 / 3 / all lines per read: exactly one terminal done / error per command, in command order, and each neighbor RIB holds exactly the routes of the accepted commands addressed to it (a refused command changes no RIB, a selector reaches only its neighbors).',
+    note='The acknowledgement-order, no-side-effect and selector-scope clauses at the dispatcher level are BOUNDED ONLY (the API dispatcher, the command callbacks and the ASYNC scheduler have no deductive obligation). The v4 command syntax, group commands, and commands other than announce route are not exercised by command-bursts. extract_neighbors is bounded only. The oversize-line memory guard is chunking-dependent by construction and excluded. Two genuine defects repaired (wildcard selector term; a v6 selector matching no peer selected every peer).',
+    ref='DESIGN.md §6 C14, §11.10, §11.19',
+    technique=PYVC + '; text as code-point views (absolute-index quantifiers); bounded real-pipe chunkings, selector enumeration, and command bursts through mechanically extracted main-loop statements on a real Reactor',
 )
 
 CLAIMED['C18'] = dict(
